@@ -486,11 +486,6 @@ def _group(tlist, cls, match,
         if tidx < 0:  # tidx shouldn't get negative
             continue
 
-        if any(token is d for d in delimiters):
-            # never join the opening/closing token of a group
-            pidx, prev_ = None, None
-            continue
-
         if token.is_whitespace:
             continue
 
@@ -499,14 +494,16 @@ def _group(tlist, cls, match,
 
         if match(token):
             nidx, next_ = tlist.token_next(tidx)
-            if any(next_ is d for d in delimiters):
-                nidx, next_ = None, None
             if prev_ and valid_prev(prev_) and valid_next(next_):
                 from_idx, to_idx = post(tlist, pidx, tidx, nidx)
-                grp = tlist.group_tokens(cls, from_idx, to_idx, extend=extend)
+                # never join the opening/closing token of the group itself
+                if not any(t is d for d in delimiters
+                           for t in tlist.tokens[from_idx:to_idx + 1]):
+                    grp = tlist.group_tokens(cls, from_idx, to_idx,
+                                             extend=extend)
 
-                tidx_offset += to_idx - from_idx
-                pidx, prev_ = from_idx, grp
-                continue
+                    tidx_offset += to_idx - from_idx
+                    pidx, prev_ = from_idx, grp
+                    continue
 
         pidx, prev_ = tidx, token
